@@ -5,6 +5,7 @@ use datasketches::cpc::{CpcSketch, CpcUnion, CpcWrapper};
 
 use super::c05::check_cpc_state;
 use crate::model::cpc::{self as m};
+use crate::refhash;
 use crate::rt::{self, rel_close, Ctx, Fp, Json, Rng};
 
 pub struct CpcInput {
@@ -14,8 +15,8 @@ pub struct CpcInput {
     pub desc: String,
 }
 
-fn sketch_from(lg_k: u8, coupons: &[u32]) -> CpcSketch {
-    let mut s = CpcSketch::new(lg_k);
+fn sketch_from(lg_k: u8, coupons: &[u32], seed: u64) -> CpcSketch {
+    let mut s = CpcSketch::with_seed(lg_k, seed);
     for &rc in coupons {
         s.verif_row_col_update(rc);
     }
@@ -55,25 +56,30 @@ fn coupons_for_flavor(rng: &mut Rng, lg_k: u8, flavor: u8) -> u64 {
 }
 
 pub fn build_input(rng: &mut Rng, max_lg: u8) -> CpcInput {
+    build_input_seeded(rng, max_lg, 9001)
+}
+
+/// All parties of a union share one hash seed; `seed` is the one of this history.
+pub fn build_input_seeded(rng: &mut Rng, max_lg: u8, seed: u64) -> CpcInput {
     let lg_k = rng.range(4, max_lg as u64) as u8;
     let flavor = rng.below(5) as u8;
     let c = coupons_for_flavor(rng, lg_k, flavor).min(m::max_coupons_in_envelope(lg_k));
     let mut coupons = m::natural_order(rng, lg_k, c);
     let kind = rng.below(3);
     let (sk, how) = match kind {
-        0 => (sketch_from(lg_k, &coupons), "fresh"),
+        0 => (sketch_from(lg_k, &coupons, seed), "fresh"),
         1 => {
-            let s = sketch_from(lg_k, &coupons);
+            let s = sketch_from(lg_k, &coupons, seed);
             let bytes = s.serialize();
-            (CpcSketch::deserialize(&bytes).expect("round trip of a library-written CPC image failed"), "deserialized")
+            (CpcSketch::deserialize_with_seed(&bytes, seed).expect("round trip of a library-written CPC image failed"), "deserialized")
         }
         _ => {
             // two independent natural streams (each inside the envelope on its own), united
             let a = m::natural_order(rng, lg_k, c / 2);
             let b = m::natural_order(rng, lg_k, c - c / 2);
-            let mut u = CpcUnion::new(lg_k);
-            u.update(&sketch_from(lg_k, &a));
-            u.update(&sketch_from(lg_k, &b));
+            let mut u = CpcUnion::with_seed(lg_k, seed);
+            u.update(&sketch_from(lg_k, &a, seed));
+            u.update(&sketch_from(lg_k, &b, seed));
             let mut all = a;
             all.extend(b);
             all.sort_unstable();
@@ -94,11 +100,13 @@ pub fn build_input(rng: &mut Rng, max_lg: u8) -> CpcInput {
 pub struct CpcUnionModel {
     pub lg_k: u8,
     pub matrix: Vec<u64>,
+    /// the hash seed shared by the union and its inputs
+    pub seed: u64,
 }
 
 impl CpcUnionModel {
     pub fn new(lg_k: u8) -> Self {
-        CpcUnionModel { lg_k, matrix: vec![0; 1usize << lg_k] }
+        CpcUnionModel { lg_k, matrix: vec![0; 1usize << lg_k], seed: 9001 }
     }
     pub fn add(&mut self, lg_k: u8, matrix: &[u64]) {
         if matrix.iter().all(|w| *w == 0) {
@@ -142,6 +150,14 @@ pub fn observe_union(ctx: &mut Ctx, u: &CpcUnion, model: &CpcUnionModel, what: &
     let img = r.serialize();
     if c > 0 && img.len() > 5 && (img[5] >> 2) & 1 == 1 {
         ctx.violation("union result image carries HIP registers", format!("{}: flags {:02x}", what, img[5]));
+    }
+    match CpcSketch::deserialize_with_seed(&img, model.seed) {
+        Ok(d) => {
+            if d.verif_bit_matrix() != r.verif_bit_matrix() || d.num_coupons() != r.num_coupons() {
+                ctx.violation("union result changes in a serialize/deserialize round trip", what.to_string());
+            }
+        }
+        Err(e) => ctx.violation("union result's image does not read back with the union's seed", format!("{} seed {}: {}", what, model.seed, e)),
     }
     match CpcWrapper::new(&img) {
         Ok(w) => {
@@ -190,13 +206,22 @@ fn union_case(ctx: &mut Ctx, case: &Json) {
     let lg_k0 = case.u64("lg_k").unwrap_or(8) as u8;
     let max_in_lg = case.u64("max_in_lg").unwrap_or(12) as u8;
     let n_in = rng.usize(0, 6);
-    let mut u = CpcUnion::new(lg_k0);
+    // a third of the histories use another hash seed than the default (shared by the union and all its inputs)
+    let mut seed = if rng.chance(0.33) { *rng.pick(&[7u64, 0, u64::MAX, 0x5555_5555, 123_456_789]) } else { 9001 };
+    if refhash::seed_hash(seed) == 0 {
+        seed = 9001;
+    }
+    let mut u = CpcUnion::with_seed(lg_k0, seed);
     let mut model = CpcUnionModel::new(lg_k0);
+    model.seed = seed;
+    if seed != 9001 {
+        ctx.cover("non_default_seed");
+    }
     let mut inputs: Vec<CpcInput> = vec![];
     let mut log: Vec<String> = vec![];
     observe_union(ctx, &u, &model, &format!("lg_k={} fresh", lg_k0));
     for step in 0..n_in {
-        let inp = build_input(&mut rng, max_in_lg);
+        let inp = build_input_seeded(&mut rng, max_in_lg, seed);
         u.update(&inp.sk);
         model.add(inp.lg_k, &inp.matrix);
         log.push(inp.desc.clone());
@@ -210,7 +235,7 @@ fn union_case(ctx: &mut Ctx, case: &Json) {
         let extra: Vec<usize> = (0..rng.usize(0, 3)).map(|_| rng.usize(0, inputs.len() - 1)).collect();
         order.extend(extra);
         rng.shuffle(&mut order);
-        let mut u2 = CpcUnion::new(lg_k0);
+        let mut u2 = CpcUnion::with_seed(lg_k0, seed);
         for &i in &order {
             u2.update(&inputs[i].sk);
         }
